@@ -22,4 +22,33 @@ PROPS = {
                      "paths are even-length lowercase hex and values non-empty byte strings, as the property quantifies; a trie is not modified while a child trie is open on it (C03 covers that)",
                      "under an injected I/O error the relaxation is: the failed operation is not applied; later operations on that trie may fail with an error, lookups may fail with a store/node-not-found error, but never return a wrong value or 'not present' for a present key"],
     ),
+    "C02": mpt(
+        quick=dict(runs=64000, budget_s=90), thorough=dict(runs=4000000, budget_s=1200),
+        rule="single-version histories (trie opened empty at version V; every operation, child trie and merge at V) as in C01 without faults; after EVERY mutation GetRoot() is compared with an independent implementation (sha3 only, written from the published format) applied to the canonical trie of the model content; at the end the same content is rebuilt in another order with delete/re-insert noise in a fresh trie (history independence, directly); a per-worker table root -> content reports two contents with one root (injectivity). Non-trivial: >= 2 effective mutations and a structural probe fired; distinct = distinct script digests",
+        state_measure="digest of (canonical trie shape of the model content, store kind)",
+        assumptions=[ROCKS_ASSUMPTION,
+                     "'at a fixed trie version' is read as: every node of the trie was created at that version (across versions untouched subtrees legitimately keep older origins, so the root is not a function of content alone)",
+                     "the independent hasher (harness/refmpt) is the specification of the published format: hash = sha3-256(LE64(origin) || body); leaf body prefix:path:value, branch body 16 x (hex(child)? ':') value, extension body path ':' rawChildKey; canonical shape as described in DESIGN.md section 5 (C02)",
+                     "no fault kind applies to this property (fault-free configuration only); it rides on the same simulated histories as C01"],
+    ),
+    "C03": mpt(
+        quick=dict(runs=32000, budget_s=90), thorough=dict(runs=2000000, budget_s=1200),
+        rule="a parent trie (any store stack) with up to 5 open child tries (transaction states over LevelNodeDB(memory, parent store)), nested children, operations interleaved across parent, siblings and children by the seeded script, children opened before a sibling merges (stale), merge/discard decisions in any order. Before every operation every open trie is snapshotted (root, content, pending changes with encodings, dead list, own memory-level nodes); afterwards every trie other than the actor must be byte-identical, the actor's view must equal parent-content-at-open plus own changes, a merge must make parent root/content equal the child's view, a rejected (stale) merge and a discard must leave the parent's root, content AND pending changes exactly as they were, and a stale merge must be rejected. Half of the runs read through throw-away trie objects so that the harness does not warm the caches of the tries under test. Non-trivial: >= 2 effective mutations and a probe (merge, stale merge, interior insert/delete) fired",
+        state_measure="digest of (canonical trie shape of the acting trie's model content, store kind)",
+        assumptions=[ROCKS_ASSUMPTION,
+                     "a child whose parent chain moved on after it was opened (stale) may fail reads with node-not-found (the parent drops nodes of its own level when it replaces them); it must never read a wrong value and its merge must be rejected",
+                     "no injected fault applies; the 'schedule' is the seeded order of logical actors on one thread"],
+    ),
+    "C14": mpt(
+        quick=dict(runs=48000, budget_s=90), thorough=dict(runs=3000000, budget_s=1200),
+        rule="histories as in C01 (values biased to separator bytes ':', NUL, type-byte look-alikes 0x01/0x02/0x04/0x08 and random binary; child tries merged) with an invariant monitor after EVERY operation over every memory level, the persistent store through NodeDB.Iterate and the raw bytes of the simulated RocksDB default column family: key == GetHashBytes(node); CreateNode(Encode(n)) succeeds, re-encodes identically, re-hashes identically; Clone() hashes identically; raw stored bytes decode and re-encode identically; a walk from the trie's root through its own store re-computes every reachable node's hash from the node read back. Non-trivial as in C01; the evidence counts node kinds and child-set sizes seen",
+        state_measure="digest of (canonical trie shape of the model content, store kind)",
+        assumptions=[ROCKS_ASSUMPTION, "no injected fault applies (fault-free configuration); corrupted stored bytes are C15's subject"],
+    ),
+    "C17": mpt(
+        quick=dict(runs=64000, budget_s=90), thorough=dict(runs=4000000, budget_s=1200),
+        rule="build a trie by a seeded history (any store stack), then inject node loss: a set S of reachable non-root nodes (single node, whole subtree, scattered, mixtures) is deleted from the level that holds it; a FRESH trie object (empty cache) at the same root must report HasMissingNodes, GetAllMissingNodes must equal exactly the frontier {n in S reachable through nodes not in S} computed by the harness's own walk, lookups of keys whose path crosses S must fail (not 'not present', never a value), other keys read their value; then MergeDB from a donor memory store holding S (insertion order seeded) at the same or a different trie version must leave no missing node, the same root, the full content, and the donor byte-identical. Non-trivial: a node-loss fault fired and >= 2 mutations",
+        state_measure="digest of (canonical trie shape of the model content, store kind)",
+        assumptions=[ROCKS_ASSUMPTION, "node loss is injected below the NodeDB interface (memory map / simulated disk), the trie object under test is created afterwards with an empty cache (a warm cache legitimately still serves removed nodes)"],
+    ),
 }
